@@ -177,6 +177,13 @@ type Msg6Spec struct {
 	IAPD   [][]PD6Hint  `json:"iapd,omitempty"` // per IA_PD its IAPrefix hints
 	Extra  []TLV6Hex    `json:"extra,omitempty"`
 	Relays []Relay6Spec `json:"relays,omitempty"` // outermost first
+	// PadTo > 0: an opaque option (code 65001) is inserted so that what follows it starts exactly at
+	// this offset of the datagram: after the client identifier of an un-relayed message (server
+	// identifier, rapid commit, ... come behind it), or first in the outermost relay layer (its
+	// Interface-ID and the relayed message come behind it). Large datagrams are legal up to 65527 bytes
+	PadTo int `json:"padto,omitempty"`
+	// Big > 0: an opaque option of that many bytes closes the innermost message
+	Big int `json:"big,omitempty"`
 }
 
 // PD6Hint is an IAPrefix as written on the wire
@@ -196,6 +203,11 @@ func (m Msg6Spec) Bytes() []byte {
 	var opts [][]byte
 	if m.Client >= 0 && m.Client < len(ClientDUIDs) {
 		opts = append(opts, Opt6(O6ClientID, ClientDUIDs[m.Client]))
+	}
+	if m.PadTo > 0 && len(m.Relays) == 0 {
+		if n := m.PadTo - 4 - len(cat(opts...)) - 4; n >= 0 && n <= 65535 {
+			opts = append(opts, Opt6(65001, make([]byte, n)))
+		}
 	}
 	switch m.Server {
 	case "own":
@@ -222,10 +234,18 @@ func (m Msg6Spec) Bytes() []byte {
 	for _, e := range m.Extra {
 		opts = append(opts, Opt6(e.Code, UnH(e.Hex)))
 	}
+	if m.Big > 0 && m.Big <= 65535 {
+		opts = append(opts, Opt6(65001, make([]byte, m.Big)))
+	}
 	w := Msg6(m.Type, m.Xid, opts...)
 	for i := len(m.Relays) - 1; i >= 0; i-- {
 		r := m.Relays[i]
 		var extra [][]byte
+		if i == 0 && m.PadTo > 0 {
+			if n := m.PadTo - 34 - 4; n >= 0 && n+len(w)+60 <= 65000 {
+				extra = append(extra, Opt6(65001, make([]byte, n)))
+			}
+		}
 		if r.IfaceID != "-" {
 			extra = append(extra, Opt6(O6InterfaceID, UnH(r.IfaceID)))
 		}
@@ -308,6 +328,11 @@ func GenMsg6(t *rapid.T) Msg6Spec {
 	}
 	if rapid.IntRange(0, 5).Draw(t, "has-extra") == 0 {
 		m.Extra = append(m.Extra, TLV6Hex{rapid.SampledFrom([]uint16{8, 16, 39, 1, 2, 3, 25, 9, 65000}).Draw(t, "extra-code"), H(rapid.SliceOfN(rapid.Byte(), 0, 24).Draw(t, "extra-data"))})
+	}
+	if Chance(t, "padto", 1, 15) {
+		m.PadTo = rapid.SampledFrom([]int{512, 1024, 1500, 2048, 4096, 4096, 8192, 16384, 32768}).Draw(t, "padto-at")
+	} else if Chance(t, "big", 1, 30) {
+		m.Big = rapid.SampledFrom([]int{1200, 3000, 5000, 20000, 60000}).Draw(t, "big-n")
 	}
 	depth := rapid.SampledFrom([]int{0, 0, 0, 1, 1, 2, 3, 4}).Draw(t, "relay-depth")
 	for i := 0; i < depth; i++ {
